@@ -68,7 +68,8 @@ namespace RecInt
     // lastx * c = 1 mod d
     // lasty * d = 1 mod c
     template <size_t K>
-    inline void bezout_mod(ruint<K>& lastx, ruint<K>& lasty, const ruint<K>& c, const ruint<K>& d) {
+    inline void bezout_mod(ruint<K>& lastx, ruint<K>& lasty, const ruint<K>& c0, const ruint<K>& d0) {
+        const ruint<K> c(c0), d(d0); // lastx, lasty may be the same objects as c0, d0
         ruint<K+1> resmul;
         ruint<K> x(0), y(1), a, b, q, r, temp;
         bool ret;
@@ -121,7 +122,8 @@ namespace RecInt
 
     // a = b^(-1) mod c if b invertible
     template <size_t K>
-    inline ruint<K>& inv_mod(ruint<K>& a, const ruint<K>& b, const ruint<K>& c) {
+    inline ruint<K>& inv_mod(ruint<K>& a, const ruint<K>& b, const ruint<K>& c0) {
+        const ruint<K> c(c0); // a may be the same object as c0
         ruint<K+1> resmul;
         ruint<K> x(0), a2, b2, q, r, temp;
         bool ret;
